@@ -40,6 +40,11 @@ impl HolePunch {
 
     #[cfg(target_os = "linux")]
     pub fn punch(file: &File, start: usize, length: usize) -> Result<()> {
+        #[cfg(anydb_verif)]
+        crate::verif::emit(crate::verif::Event::Punch {
+            off: start,
+            len: length,
+        });
         let result = unsafe {
             libc::fallocate(
                 file.as_raw_fd(),
